@@ -67,6 +67,10 @@ func (r *Row) Add(c Cell) *Row {
 	ptr := &r.cells[column-1]
 	ptr.inRow = r
 	ptr.columnNum = column
+	if r.inTable != nil {
+		// the row already belongs to a table: keep the table's column count in step
+		r.inTable.resizeColumnsAtLeast(column)
+	}
 	invokePropertyCallbacks(r.rowCellCallbacks, CB_AT_ADD, ptr, r.ErrorContainer)
 	return r
 }
